@@ -235,8 +235,12 @@ func fq(q *models.Query) string {
 
 // FilterCheck runs one filter query on the shard and compares with the model.
 func (in *Inst) FilterCheck(o *Obs, m *Model, q models.Query, sigPrefix string) {
-	// validation is the API's precondition; only valid queries are issued
-	if err := q.Validate(); err != nil {
+	// validation is the API's precondition; only valid queries are issued.  The
+	// HTTP layer validates the decoded query object and then searches with that
+	// same object, so whatever Validate does to it reaches the indexes: the
+	// reference is evaluated on a pristine copy, the search gets the validated one.
+	validated := cloneQuery(q)
+	if err := validated.Validate(); err != nil {
 		return
 	}
 	want, err := EvalFilter(m, q)
@@ -244,7 +248,7 @@ func (in *Inst) FilterCheck(o *Obs, m *Model, q models.Query, sigPrefix string) 
 		panic(err)
 	}
 	// the implementation folds array query values in place: hand it a copy
-	res, err := in.Search(cloneQuery(q), nil, 0)
+	res, err := in.Search(cloneQuery(validated), nil, 0)
 	o.Checks++
 	if err != nil {
 		o.Fail(sigPrefix+"filter-query-error:"+leafClass(q), "%s: %v", QueryString(q), err)
